@@ -125,6 +125,7 @@ def plan_jobs(chk, quota, rnd):
     for tid, (p, cfgs, faults) in enumerate(stage.plan(chk.tier, chk.seed)):
         flat = G.flatten(p)
         for ci, c in enumerate(cfgs):
+            c = dict(c, retry=False)        # scenario_autoretry announces a scenario twice: outside the statement of C15
             for fi, f in enumerate(faults):
                 jobs.append({"key": ["plan", tid + 1, ci + 1, fi + 1], "prog": p, "flat": flat, "cfg": c, "fault": f,
                              "fault_kind": "assert" if (tid + ci + fi) % 3 == 0 else "exc", "pass": "reports"})
@@ -251,38 +252,56 @@ def tagged(chk, tag):
 
 
 # ------------------------------------------------------------------------------------------------ run
+def design_level(chk):
+    """TLC on the design: quick = <= 2 scenarios, alone or followed by a second feature; thorough = 3 scenarios (one feature),
+    2 scenarios with a second feature before / after, 2 scenarios with <= 3 own steps"""
+    cfgs = ["Consumers_MC_quick.cfg"] if chk.quick() else ["Consumers_MC_thorough.cfg", "Consumers_MC_thorough_two.cfg",
+                                                            "Consumers_MC_thorough_own3.cfg"]
+    return [chk.tlc("Consumers_MC", c, timeout=3000, workers=WORKERS, coverage=False, heap="8g") for c in cfgs]
+
+
 def run(chk):
     rnd = random.Random(chk.seed)
     quick = chk.quick()
+    # real runs first: multiprocessing forks, so no other thread of this process may be alive meanwhile
+    base, planned = plan_jobs(chk, 1300 if quick else 24000, rnd)
+    fjobs = formats_jobs(chk, base, rnd)
+    real_out = stage.drive_all([run_job(j) for j in base + fjobs], procs=PROCS)
+    rows, jobs = [], {}
+
+    def add_rows(some_jobs, outs):
+        new = []
+        for job, o in zip(some_jobs, outs):
+            if "driver_error" in o:
+                raise RuntimeError("driver failed on %s:\n%s" % (job["key"], o["driver_error"]))
+            rid = len(rows) + 1
+            rows.append(make_row(rid, job, o))
+            jobs[rid] = job
+            new.append(rows[-1])
+        return new
+    part1 = add_rows(base + fjobs, real_out)
+    del real_out
+    # design level (TLC) while the judge (TLC as well, sub-processes only) works on the rows recorded so far
     ex = ThreadPoolExecutor(max_workers=1)
-    fut = ex.submit(chk.tlc, "Consumers_MC", "Consumers_MC_quick.cfg" if quick else "Consumers_MC_thorough.cfg", timeout=3000,
-                    workers=WORKERS, coverage=False, heap="8g")
+    fut = ex.submit(design_level, chk)
     try:
-        base, planned = plan_jobs(chk, 1300 if quick else 24000, rnd)
-        fjobs = formats_jobs(chk, base, rnd)
-        real_out = stage.drive_all([run_job(j) for j in base + fjobs], procs=PROCS)
+        verdicts = judge(chk, part1, jobs)
     finally:
-        r = fut.result()
+        mcs = fut.result()
         ex.shutdown()
-    for name in r.violated:
-        chk.violation("C15.design." + name, "design:%s" % name, "TLC: invariant %s violated in Consumers_MC" % name)
-    emitted = [json.loads(t[1]) for t in r.by_tag("CASE")]
+    emitted = []
+    for r in mcs:
+        for name in r.violated:
+            chk.violation("C15.design." + name, "design:%s" % name, "TLC: invariant %s violated in Consumers_MC" % name)
+        emitted.extend(json.loads(t[1]) for t in r.by_tag("CASE"))
+    n_emitted = len(emitted)
     emitted.sort(key=lambda c: json.dumps(c["run"], sort_keys=True))
     nd = 700 if quick else 6000
     if len(emitted) > nd:
         emitted = rnd.sample(emitted, nd)
     djobs = [design_job(n, c) for n, c in enumerate(emitted)]
     design_out = stage.drive_all([run_job({k: v for k, v in j.items() if k != "case"}) for j in djobs], procs=PROCS)
-    jobs_all = base + fjobs + djobs
-    outs = real_out + design_out
-    rows, jobs = [], {}
-    for job, o in zip(jobs_all, outs):
-        if "driver_error" in o:
-            raise RuntimeError("driver failed on %s:\n%s" % (job["key"], o["driver_error"]))
-        rid = len(rows) + 1
-        rows.append(make_row(rid, job, o))
-        jobs[rid] = job
-    verdicts = judge(chk, rows, jobs)
+    verdicts.update(judge(chk, add_rows(djobs, design_out), jobs))
     # spec vs implementation (informational): the automata on every recorded stream; the generator on the design rows
     div = tagged(chk, "DIVERGE")
     ddiv = []
@@ -315,7 +334,7 @@ def run(chk):
             cov[k] = cov.get(k, 0) + int(bool(v))
     chk.extra["reports_rows_by_attribute"] = cov
     chk.extra["formatter_sets"] = len({json.dumps(j["formats"]) for j in fjobs})
-    chk.extra["design_cases_emitted"] = len(r.by_tag("CASE"))
+    chk.extra["design_cases_emitted"] = n_emitted
     chk.extra["design_cases_by_family"] = {k: sum(1 for c in emitted if c["clauses"].get(k)) for k in sorted(emitted[0]["clauses"])} if emitted else {}
     for x in ([y for y in rows if y["pass"] == "reports" and y["end"]["ran"]][:1] + [y for y in rows if y["pass"] == "formats"][:1] +
               [y for y in rows if y["pass"] == "design"][-1:]):
@@ -332,6 +351,8 @@ def run(chk):
                        "j-th step (in a dry run: j-th defined step) when a died run is attributed to a formatter (signature only)",
                        "statuses that formatters read from model objects during a callback are compared with the statuses after the run",
                        "--no-junit --no-summary in all runs, so that a run that dies did so inside a formatter callback",
+                       "configurations of the shared plan with scenario_autoretry are run without it: a retried scenario is announced "
+                       "twice, about which the statement is silent",
                        "tables / doc-strings / unicode texts of steps are not generated by the run cluster's programs: that part of "
                        "C15.json_mirror is not judged here",
                        "read-back: structure and step statuses only (JsonParser does not read element statuses)",
